@@ -48,18 +48,62 @@ def wave_arg(case, which):
     return x
 
 
-def call_all(bp, wl, thr, area):
+def call_one(bp, m, wl, thr, area):
     kw = {} if wl is None else {'wavelengths': wl}
+    if m in ('unit_response', 'emflx'):
+        return guarded(lambda: getattr(bp, m)(area, **kw))
+    if m.endswith('_thr'):
+        return guarded(lambda: getattr(bp, m[:-4])(threshold=thr, **kw))
+    return guarded(lambda: getattr(bp, m)(**kw))
+
+
+def call_all(bp, wl, thr, area, order=None):
+    """all 14 methods (17 calls), in the given order (the results must not depend on it)"""
     R = {}
-    for m in ('avgwave', 'barlam', 'pivot', 'rmswidth', 'photbw', 'fwhm', 'tlambda', 'tpeak', 'wpeak', 'equivwidth',
-              'rectwidth', 'efficiency'):
-        R[m] = guarded(lambda: getattr(bp, m)(**kw))
-    for m in ('unit_response', 'emflx'):
-        R[m] = guarded(lambda: getattr(bp, m)(area, **kw))
-    for m in ('rmswidth', 'photbw', 'fwhm'):
-        # threshold=None is the default argument: the call above already made it
-        R[m + '_thr'] = R[m] if thr is None else guarded(lambda: getattr(bp, m)(threshold=thr, **kw))
+    for m in (order or METHODS):
+        if m.endswith('_thr') and thr is None:
+            continue
+        R[m] = call_one(bp, m, wl, thr, area)
+    for m in THR:
+        if m not in R:
+            # threshold=None is the default argument: the plain call already made it
+            R[m] = R[m[:-4]]
     return R
+
+
+def spell(case, vals, how):
+    """one sampling grid (Angstrom values) in one of the spellings the API accepts; 'unit' is the case's own grid in
+    its other unit (values that astropy converts to exactly the Angstrom grid)"""
+    import astropy.units as u
+    if how == 'unit' and case.get('grid_unit'):
+        d = case['grid_unit']
+        return np.array([O.fl(v) for v in d['vals']]) * u.Unit(UNITS[d['unit']])
+    x = [O.fl(v) for v in vals]
+    if how == 'list':
+        return x
+    if how == 'quantity':
+        return np.array(x) * u.AA
+    return np.array(x)
+
+
+def run_history(case, bp, thr, area):
+    """what happened earlier in the process: other bandpasses (or this very object) asked for some parameters on the
+    same / a related sampling grid.  Outcomes are not looked at; the measured call must not depend on them."""
+    for st in case.get('history', ()):
+        try:
+            other = bp if st['expr'] == 'self' else O.eval_expr(st['expr'])
+            g = st['grid']
+            if g == 'same':
+                wl = None if case['grid'] is None else spell(case, case['grid'], st['spelling'])
+            elif g == 'waveset':
+                w = bp.waveset
+                wl = None if w is None else np.array(w.value, dtype=float)
+            else:
+                wl = spell(case, g, st['spelling'] if st['spelling'] != 'unit' else 'ndarray')
+            for m in st['methods']:
+                call_one(other, m, wl, thr, area)
+        except Exception:  # noqa
+            pass
 
 
 def formulas(bp, wl, thr_value, area_cm2):
@@ -135,7 +179,11 @@ def impl_call(case):
     thr_v = None if case['threshold'] is None else O.fl(case['threshold'])
     thr = thr_v if (thr_v is None or not case.get('threshold_as_quantity')) else thr_v * u.dimensionless_unscaled
     wl = wave_arg(case, 'main')
-    out = {'ok': call_all(bp, wl, thr, area)}
+    run_history(case, bp, thr, area)
+    out = {'ok': call_all(bp, wl, thr, area, case.get('order'))}
+    # the same object asked again: same answers
+    if case.get('again'):
+        out['_again'] = {m: call_one(bp, m, wl, thr, area) for m in case['again']}
     fo = guarded(lambda: formulas(bp, wl, thr_v, area_cm2))
     if 'ok' in fo:
         out['_x'], out['_y'] = fo['ok']['x'], fo['ok']['y']
@@ -305,6 +353,11 @@ def oracle(rep, case, out):
             elif tol(meth, 1e-9) is not None and not rel_close(got, want, *tol(meth, 1e-9)):
                 rep.oracle_fail('%s:formula:%s' % (meth, c), '%s = %r, documented formula on the same samples gives %r'
                                 % (meth, got, want), case, R)
+    # 1b. the same object asked twice gives the same answer (same arithmetic: to the last bit)
+    for meth, o2 in (out.get('_again') or {}).items():
+        if o2 != R[meth] and not (('err' in o2) and o2.get('err') == R[meth].get('err')):
+            rep.oracle_fail('history:asked_twice:%s' % meth, '%s first %s, asked again %s' % (
+                meth, core._short(R[meth]), core._short(o2)), case, R)
     # 2. identities
     rw, tp, ew = val(R, 'rectwidth'), val(R, 'tpeak'), val(R, 'equivwidth')
     if None not in (rw, tp, ew) and tp != 0 and not rel_close(rw * tp, ew, 1e-12):
@@ -592,7 +645,80 @@ def gen_case1(rng, K, nmax_t, nmax_g):
     c['area_as_quantity'] = rng.random() < 0.3
     # scale factor over 12 decades
     c['k'] = q(rng.choice([F(2) ** rng.randint(-20, 20), F(*float(10 ** rng.uniform(-6, 6)).as_integer_ratio())]))
+    # the process before the measured call, the order of the measured calls, and what is asked a second time
+    c['history'] = gen_history(rng, c)
+    order = list(METHODS)
+    rng.shuffle(order)
+    c['order'] = order
+    c['again'] = sorted({rng.choice(HIST_METHODS) for _ in range(rng.randint(1, 3))})
     return c
+
+
+def gen_other(rng, lo, hi):
+    """another bandpass living on (or far from) the wavelength range [lo, hi]"""
+    r = rng.random()
+    span = max(hi - lo, F(1))
+    c = lo + span * F(rng.randint(0, 16), 16)
+    if r < 0.3:
+        w = max(span * F(rng.randint(1, 8), 16), F(1, 4))
+        return band({'leaf': 'box', 'amp': q(dyf(rng, 0.0625, 1, 4)), 'x0': q(c), 'width': q(w), 'step': q(w / 8)})
+    if r < 0.5:
+        return band({'leaf': 'gaussian', 'amp': q(dyf(rng, 0.0625, 1, 4)), 'mean': q(c), 'sd': q(max(span / rng.choice([4, 8, 32]), F(1, 8)))})
+    if r < 0.85:
+        n = rng.randint(2, 6)
+        xs = sorted({lo + span * F(rng.randint(0, 64), 64) for _ in range(n)} | {c})
+        if len(xs) < 2:
+            xs = [lo, lo + span]
+        vals = [F(0) if rng.random() < 0.25 else dyf(rng, 0, 2, 4) + F(1, 16) for _ in xs]
+        return band({'leaf': 'empirical', 'pts': qs(xs), 'vals': qs(vals), 'keep_neg': True})
+    return gen_expr(rng, 8)[0]
+
+
+HIST_METHODS = ['tlambda', 'emflx', 'avgwave', 'tlambda', 'emflx'] + METHODS
+
+
+def related_grid(rng, g):
+    """same length and end points, other interior points"""
+    if len(g) < 3:
+        return list(g)
+    a, b = g[0], g[-1]
+    lo, hi = min(a, b), max(a, b)
+    inner = set()
+    tries = 0
+    while len(inner) < len(g) - 2 and tries < 200:
+        tries += 1
+        v = lo + (hi - lo) * F(rng.randint(1, 2 ** 12 - 1), 2 ** 12)
+        if lo < v < hi:
+            inner.add(v)
+    out = sorted({lo, hi} | inner)
+    return out if a < b else out[::-1]
+
+
+def gen_history(rng, c):
+    """1-3 earlier requests in the same process (explicit grids), 0-2 for the default waveset"""
+    g = None if c['grid'] is None else [unq(v) for v in c['grid']]
+    if g is not None and len(g) >= 1:
+        lo, hi = min(g), max(g)
+        n = rng.randint(1, 3)
+    else:
+        lo, hi = support(c['expr']) if all(p['leaf']['leaf'] != 'const1' for p in O.walk_prims(c['expr'])) else (F(1000), F(9000))
+        n = rng.randint(0, 2)
+    steps = []
+    for _ in range(n):
+        st = {'expr': 'self' if rng.random() < 0.25 else gen_other(rng, lo, hi),
+              'methods': [rng.choice(HIST_METHODS) for _ in range(rng.randint(1, 4))]}
+        r = rng.random()
+        if g is None:
+            st['grid'], st['spelling'] = ('waveset' if r < 0.6 else 'same'), 'ndarray'
+        elif r < 0.6 or st['expr'] == 'self' and r < 0.3:
+            st['grid'] = 'same'
+            st['spelling'] = rng.choice(['list', 'ndarray', 'quantity'] + (['unit', 'unit'] if c.get('grid_unit') else []))
+        elif r < 0.8:
+            st['grid'], st['spelling'] = qs(related_grid(rng, g)), rng.choice(['list', 'ndarray', 'quantity'])
+        else:
+            st['grid'], st['spelling'] = qs(g[::-1]), rng.choice(['list', 'ndarray', 'quantity'])
+        steps.append(st)
+    return steps
 
 
 FIXED = [
@@ -639,6 +765,11 @@ def tags(c, o):
     t.append('n:%s' % ('0-1' if n < 2 else '2-4' if n < 5 else '5-12' if n < 13 else '13-50' if n < 51 else '51+'))
     t.append('threshold:%s' % ('none' if c['threshold'] is None else 'quantity' if c.get('threshold_as_quantity') else 'number'))
     t.append('area:%s' % c['area_unit'])
+    h = c.get('history', [])
+    t.append('history:%d earlier requests' % len(h))
+    for st in h:
+        t.append('history:%s bandpass on %s grid' % ('same' if st['expr'] == 'self' else 'other',
+                                                     st['grid'] if isinstance(st['grid'], str) else 'related/reversed'))
     if c.get('signed'):
         t.append('signed_table')
     R = o['ok']
@@ -664,7 +795,7 @@ def nontrivial(c, o):
 
 def budget(rep):
     thorough = rep.tier == 'thorough'
-    return (40000, 200, 200) if thorough else (3000, 12, 12)
+    return (40000, 200, 200) if thorough else (2500, 12, 12)
 
 
 GEN_CHUNK = 500
@@ -701,7 +832,10 @@ def run(rep):
                 'a coarse step, Gaussians, products of two, each optionally times a number; sampled on the default waveset or on explicit grids '
                 'of 0..%d dyadic points (ascending/descending; Angstrom arrays or Quantities; nm, micron, Hz) x threshold (none, exactly a sampled '
                 'value, off-lattice; number or Quantity) x area (cm2 number, cm2/m2 Quantity, 1e-2..1e6) x scale factor k (2^-20..2^20, 1e-6..1e6). '
-                'All 14 methods per case (17 calls: the three width methods with and without threshold)%s. '
+                'All 14 methods per case (17 calls: the three width methods with and without threshold; call order shuffled)%s. Every case is a short history in one '
+                'process: 0-3 earlier requests (other bandpasses, or the same object; random subsets of the methods) on the same grid in another spelling '
+                '(list / ndarray / Quantity in Angstrom or the other unit), on a related grid (same length and end points) or on the reversed grid, then '
+                'the measured calls, then some of them again; the model is a function of the measured request only. '
                 'Non-trivial: the average wavelength is defined and non-zero.' % (
                     nmax_t, nmax_g, '; thorough tier: 10 %% of the cases use the long tables/grids, and each companion evaluation '
                     '(bp*k, reversed grid, other unit) is made for a quarter of the cases' if rep.tier == 'thorough' else ''))
